@@ -41,7 +41,7 @@ def damage(r, cells, spans, order, kind=None):
     """returns (cells', set of physical indexes whose fields were hit by guaranteed-detectable damage,
     set of physical indexes possibly affected in any way, description)"""
     c = list(cells)
-    kind = r.below(14) if kind is None else kind % 14
+    kind = r.below(15) if kind is None else kind % 15
     hit, touched = set(), set()
     if kind <= 3:      # detectable damage inside one or more fields
         for _ in range(r.range(1, 3)):
@@ -114,6 +114,13 @@ def damage(r, cells, spans, order, kind=None):
                 c[p] = 0 if kind == 10 else r.below(2)
         touched = {k, min(len(order) - 1, k + 1)}
         desc = 'data-mark-and-next-id-destroyed'
+    elif kind == 14:   # one flipped data bit inside an address mark byte itself (FB -> FA/F9/..., FE -> FC/...): not the mark any more
+        f = r.choice(spans)
+        bit = r.choice([7, 6, 6, 7, r.below(8)])          # MSB-first index: 7 and 6 are the two low bits (FB -> FA, F9)
+        c[f[2] + 2 * bit + 1] ^= 1
+        hit.add(f[1])
+        touched.add(f[1])
+        desc = 'mark-bit-flip'
     elif kind == 13:   # a single flipped data bit whose effect on the CRC leaves one of the two CRC bytes unchanged
         f = r.choice([x for x in spans if x[0] == 'data'])
         j, b = r.choice(HALF_CRC_FLIPS)
@@ -157,8 +164,8 @@ def run(ctx):
     reqs, metas = [], []
     for k in range(60 if quick else 1500):
         mfm = r.chance(1, 2)
-        if k % 14 == 13:
-            mfm = (k // 14) % 2 == 0        # the CRC-specific damage on both encodings in every run
+        if k % 15 in (13, 14):
+            mfm = (k // 15) % 2 == 0        # the CRC-specific damage on both encodings in every run
         nsec = r.choice([10, 10, 4]) if not mfm else r.choice([18, 16, 5])
         lay = rand_layout(r, mfm, nsec)
         if r.chance(1, 4):
@@ -233,8 +240,9 @@ def run(ctx):
 def run_images(ctx, r, quick):
     impl = ctx.build('asan')
     cases = []
-    for k in range(8 if quick else 64):
-        forced = {0: ('hxc', True, 4), 1: ('hfe1', False, 5), 2: ('hxc', True, 6), 3: ('hfe1', False, 7), 4: ('hfe3', True, 7), 5: ('hfe1', False, 6)}.get(k)
+    for k in range(10 if quick else 64):
+        forced = {0: ('hxc', True, 4), 1: ('hfe1', False, 5), 2: ('hxc', True, 6), 3: ('hfe1', False, 7), 4: ('hfe3', True, 7), 5: ('hfe1', False, 6),
+                  6: ('hfe1', False, 8), 7: ('hfe3', False, 8)}.get(k)
         if forced:
             kind, mfm, style = forced
             tracks = 5
@@ -242,7 +250,7 @@ def run_images(ctx, r, quick):
             mfm = r.chance(1, 2)
             tracks = r.choice([3, 5, 40])
             kind = r.choice(['hfe1', 'hfe3', 'hxc'] if mfm else ['hfe1', 'hfe3'])
-            style = r.below(8)
+            style = r.below(9)
         spt = 18 if mfm else 10
         base = 1 if style == 7 else 0           # style 7: IBM-style record numbers 1..spt (legitimate, never produced by a BBC)
         recs = list(range(base, base + spt))
@@ -250,6 +258,16 @@ def run_images(ctx, r, quick):
         lays = {t: rand_layout(r, mfm, spt) for t in range(tracks)}
         for t in range(tracks):
             lays[t].order = [x + base for x in lays[t].order]
+            if style == 8:
+                lays[t].gap1 = r.choice([0, 1, 16])        # a short gap after the index: the first data mark is close to the start of the track
+                lays[t].gap2 = min(lays[t].gap2, 22)
+                # choose gap 3 so that the ID field of the physically last sector ends on a 256-byte boundary of the stored stream
+                # (64 FM bytes): a track cut there is stored without any padding after the cut
+                g3 = lays[t].gap3
+                for extra in range(64):
+                    lays[t].gap3 = g3 + extra
+                    if (field_spans(lays[t], mfm, spt)[-2][3] // 16) % 64 == 0:
+                        break
         top = recs[-1]
         if style == 5:      # the highest record of every track is a deleted-data record (damaged on some tracks)
             for t in range(tracks):
@@ -258,6 +276,8 @@ def run_images(ctx, r, quick):
         victims = [] if style in (0, 7) else list(range(tracks)) if style == 1 else sorted(r.shuffle(list(range(tracks)))[:max(1, tracks // 3)])
         if style in (4, 6) and kind != 'hxc':
             victims = list(range(tracks))       # HFE insists on the same number of sectors on every track
+        if style == 8 and k % 2 == 0:
+            victims = list(range(tracks))
         info = {}
         for t in range(tracks):
             secs = {s: content[(t, s)] for s in recs}
@@ -271,6 +291,12 @@ def run_images(ctx, r, quick):
                 for p in range(f[2], f[3]):
                     cells[p] = 0
                 info[t] = 'first-record-lost' if style == 6 else 'top-record-lost'
+            elif t in victims and style == 8:
+                # the track ends shortly after the ID field of the physically last sector: its data is gone
+                sp = field_spans(lays[t], mfm, spt)
+                f = [x for x in sp if x[0] == 'id'][-1]
+                cells = cells[:f[3]]
+                info[t] = 'cut-after-last-id'
             elif t in victims and style == 5:
                 sp = field_spans(lays[t], mfm, spt)
                 idx = lays[t].order.index(top)
@@ -290,10 +316,12 @@ def run_images(ctx, r, quick):
             name, img = 'x.hfe', flux.hfe_image(per_track, 1, not mfm)
         else:
             name, img = 'y.hfe', flux.hfe_image(per_track, 1, not mfm, v3=True, opcode_rng=r.fork(), opcode_density=40, straddle=r.chance(1, 2))
-        special = style in (1, 4, 5, 6, 7)
+        special = style in (1, 4, 5, 6, 7, 8)
         probes = [(t, s) for t in victims for s in (range(spt) if not special else [0, 1, spt - 2, spt - 1])]
         if special:
             probes += [(t, s) for t in range(tracks) for s in (0, 1, spt - 1)]
+        if style == 8:
+            probes += [(t, lays[t].order[-1]) for t in range(tracks)] + [(t, lays[t].order[0]) for t in range(tracks)]
         probes += [(t, r.below(spt)) for t in range(tracks) if t not in victims][:6]
         probes = sorted(set(probes))
         if quick and not special:
